@@ -419,7 +419,8 @@ TREE_MUTATIONS = ["unknown_tag", "ext_not_allowed", "ext_existing_term", "requir
                   "def_undeclared", "def_value_missing", "def_value_extra", "defexpand_altered", "duplicate_tag",
                   "duplicate_group", "taggroup_tag_at_top", "toplevel_group_nested", "definition_in_string",
                   "unique_twice", "empty_group", "onset_extra_group", "onset_no_def", "offset_with_group",
-                  "duration_two_groups", "ext_bad_char", "toplevel_group_nested_twin"]
+                  "duration_two_groups", "ext_bad_char", "toplevel_group_nested_twin",
+                  "duplicate_among_same_base"]
 TEXT_MUTATIONS = ["paren_extra_open", "paren_extra_close", "paren_removed", "paren_wrong_order", "double_comma",
                   "leading_comma", "trailing_comma", "comma_missing_before_group", "comma_missing_after_group",
                   "forbidden_char"]
@@ -484,6 +485,8 @@ def mutated(draw, ann, kinds=None, start=0):
             ok = any(m.node_value_classes(n) == ["nameClass"] and not m.node_unit_classes(n) for n in unused(pl.valued))
         elif k == "placeholder_not_allowed":
             ok = (not allow_ph) and bool(unused(pl.valued))
+        elif k == "duplicate_among_same_base":
+            ok = bool(unused(pl.valued))
         elif k == "def_undeclared":
             ok = pl.has["def"]
         elif k == "def_value_missing":
@@ -674,6 +677,23 @@ def mutated(draw, ann, kinds=None, start=0):
     elif kind == "empty_group":
         _insert_somewhere(draw, tree, make_group([]))
         expect = "TAG_EMPTY"
+    elif kind == "duplicate_among_same_base":
+        # Node/v1, Node/v2, Node/v1 in one list: the two equal tags are separated by a same-base tag
+        node = pick(unused(pl.valued))
+        v1, _ = value_for(draw, node, pl)
+        v2 = v1
+        for _ in range(5):
+            v2, _ = value_for(draw, node, pl)
+            if v2.casefold() != v1.casefold():
+                break
+        if v2.casefold() == v1.casefold():
+            v2 = v1 + "9" if not m.node_unit_classes(node) else "7"
+        spots = list(all_groups(tree))
+        path, lst = draw(st.sampled_from(spots))
+        for val in draw(st.permutations([v1, v2, v1])):
+            lst.insert(draw(st.integers(0, len(lst))),
+                       make_tag(f"{spelled(draw, node, m)}/{val}", tag_id(node, val), node=node.long, kind="value"))
+        expect = "TAG_EXPRESSION_REPEATED"
     elif kind == "toplevel_group_nested_twin":
         # a legal top-level Duration group plus an identical copy nested inside another group (the copy is misplaced)
         extra = [n for n in pl.plain if n.long not in used]
